@@ -427,6 +427,15 @@ fn validate_and_transcode_texture_for_entry(
             // primary(dest_format, "unknown color format"),
         )))?;
 
+        // (a size that disagrees with the dimensions only produces a warning when an ANM file is read,
+        //  so it can still show up here; the transcoder needs whole pixels)
+        let expected_size = src_cformat.bytes_per_pixel() as usize * src_metadata.width as usize * src_metadata.height as usize;
+        if src_data.data.len() != expected_size {
+            return Err(emitter.emit(error!(
+                message("cannot transcode image '{entry_path}': its data has the wrong size for its dimensions ({} bytes, expected {expected_size})", src_data.data.len()),
+                note("the image comes from '{}'", loaded_source_path.display()),
+            )));
+        }
         let data_argb = src_cformat.transcode_to_argb_8888(&src_data.data);
         dest_cformat.transcode_from_argb_8888(&data_argb)
     };
